@@ -6,6 +6,7 @@ package c05
 import (
 	"errors"
 	"fmt"
+	"os"
 	"strings"
 	"sync"
 	"testing"
@@ -61,38 +62,48 @@ type op struct {
 
 const version = "0.14.0"
 
+// buildVariant builds the alphabet block `which` on top of parent (nil = genesis); errNA if the variant does not
+// exist in that state.
+func buildVariant(parent *chain.Entry, which string) (*chain.Entry, error) {
+	var number uint64
+	var st *chain.State
+	if parent != nil {
+		number, st = parent.Block.Number+1, parent.State
+	}
+	for _, nm := range chain.Alphabet(st, number, version) {
+		if nm.Name != which {
+			continue
+		}
+		// give every block events, so the event index is always involved
+		sp := nm.Spec
+		from := chain.AddrA
+		if which == "empty" {
+			from = chain.AddrB // different blocks at one height carry events of different emitters
+		}
+		sp.Txs = []chain.TxSpec{{Kind: "invoke3", Salt: number*8 + uint64(len(which)), Events: []chain.EvSpec{
+			{From: from, Keys: []felt.Felt{chain.FV(0x100 + number), chain.FV(uint64(len(which)))}, Data: []felt.Felt{chain.FV(number)}}}},
+			{Kind: "l1handler0", Salt: number*8 + 1 + uint64(len(which))}}
+		e, err := chain.Build(parent, sp)
+		if err != nil {
+			return nil, errNA
+		}
+		return e, nil
+	}
+	return nil, errNA
+}
+
 func storeOp(which string) op {
 	return op{"store:" + which, func(n *node) error {
-		var number uint64
-		var st *chain.State
-		if h := n.head(); h != nil {
-			number, st = h.Block.Number+1, h.State
+		e, err := buildVariant(n.head(), which)
+		if err != nil {
+			return err
 		}
-		for _, nm := range chain.Alphabet(st, number, version) {
-			if nm.Name != which {
-				continue
-			}
-			// give every block events, so the event index is always involved
-			sp := nm.Spec
-			from := chain.AddrA
-			if which == "empty" {
-				from = chain.AddrB // different blocks at one height carry events of different emitters
-			}
-			sp.Txs = []chain.TxSpec{{Kind: "invoke3", Salt: number*8 + uint64(len(which)), Events: []chain.EvSpec{
-				{From: from, Keys: []felt.Felt{chain.FV(0x100 + number), chain.FV(uint64(len(which)))}, Data: []felt.Felt{chain.FV(number)}}}},
-				{Kind: "l1handler0", Salt: number*8 + 1 + uint64(len(which))}}
-			e, err := chain.Build(n.head(), sp)
-			if err != nil {
-				return errNA
-			}
-			n.seen = append(n.seen, e)
-			if err := chain.StoreSync(n.bc, e.Fresh(n.head())); err != nil {
-				return err
-			}
-			n.ref = append(n.ref, e)
-			return nil
+		n.seen = append(n.seen, e)
+		if err := chain.StoreSync(n.bc, e.Fresh(n.head())); err != nil {
+			return err
 		}
-		return errNA
+		n.ref = append(n.ref, e)
+		return nil
 	}}
 }
 
@@ -396,10 +407,7 @@ func TestCheck(t *testing.T) {
 			gen(append(cur, o), alphabet, max)
 		}
 	}
-	gen(nil, ops, depth)
-	nShallow := len(seqs)
-	gen(nil, deepOps, deepDepth)
-	// scripted long histories aimed at the snapshot / reorg / restart interplay (always included)
+	// scripted long histories aimed at the snapshot / reorg / restart interplay (always included, and FIRST, so that the internal deadline never cuts them on a loaded machine)
 	sx, sy := storeOp("A.s0=1"), storeOp("empty")
 	for _, sc := range [][]op{
 		{sx, opSnapshot, opRevert, sy, opRestartU},
@@ -413,6 +421,10 @@ func TestCheck(t *testing.T) {
 	} {
 		seqs = append(seqs, sc)
 	}
+	nScripted := len(seqs)
+	gen(nil, ops, depth)
+	nShallow := len(seqs)
+	gen(nil, deepOps, deepDepth)
 	seen := map[string]bool{}
 	var uniq [][]op
 	for _, s := range seqs {
@@ -426,226 +438,242 @@ func TestCheck(t *testing.T) {
 	r.Set("sequences_generated", int64(len(seqs)))
 	_ = nShallow
 
+	// Part F first: it is small, and the internal deadline must never cut it (see followup_test.go)
+	followUps(r, storeNames)
+	if os.Getenv("VERIF_C05_ONLY_F") != "" { // development aid: part F alone
+		r.Set("distinct_nontrivial", int64(2))
+		r.Set("rule", "part F only (development run)")
+		r.Incomplete("development run: part F only")
+		r.Finish()
+	}
+
 	var mu sync.Mutex
 	distinct := map[string]bool{}
 	var crashRuns, faultRuns, applicableSeqs int64
-	for _, newState := range []bool{false, true} {
-		bases := baseImages(r, newState)
-		for baseName, mkNodeP := range bases {
-			label := fmt.Sprintf("%s base=%s", backendName(newState), baseName)
-			ev.Par(len(seqs), 14, func(si int) {
-				if r.OutOfTime() {
-					r.Incomplete("sequences " + label)
-					return
-				}
-				seq := seqs[si]
-				name := seqName(seq)
-				pruning := strings.Contains(name, "prune")
-				mkNode := func() *node { return mkNodeP(pruning) }
-				openOn := func(d *faultdb.DB) *blockchain.Blockchain {
-					t := &node{db: d, fdb: d, newState: newState, pruning: pruning}
-					t.open()
-					return t.bc
-				}
-				key := func(kind string) string { return kind + " " + label }
-				// ---- reference run (no fault): record commit boundaries and reference chains per op ----
-				n := mkNode()
-				n.fdb.SnapshotAll()
-				type boundary struct {
-					commit int
-					ref    []*chain.Entry
-					floor  uint64
-				}
-				bounds := []boundary{{0, append([]*chain.Entry{}, n.ref...), 0}}
-				for _, o := range seq {
-					err := o.run(n)
-					if errors.Is(err, errNA) {
-						return // sequence not applicable from this base
-					}
-					if err != nil {
-						r.Violate(key("op-fails-without-fault "+o.name), map[string]any{"sequence": name, "err": err.Error()})
+	// two passes over backends x bases: the scripted histories of ALL of them first, then the generated sequences
+	for pass := 0; pass < 2; pass++ {
+		for _, newState := range []bool{false, true} {
+			bases := baseImages(r, newState)
+			for _, baseName := range []string{"empty", "3-blocks"} {
+				mkNodeP := bases[baseName]
+				label := fmt.Sprintf("%s base=%s", backendName(newState), baseName)
+				ev.Par(len(seqs), 14, func(si int) {
+					if (si < nScripted) != (pass == 0) {
 						return
 					}
-					bounds = append(bounds, boundary{n.fdb.Commits(), append([]*chain.Entry{}, n.ref...), n.floor})
-				}
-				mu.Lock()
-				applicableSeqs++
-				distinct[label+"/"+name] = true
-				mu.Unlock()
-				total := n.fdb.Commits()
-				finalImage := chain.ImageHash(n.fdb.Inner())
-				// the long-lived node itself must describe the reference chain at the end
-				if !checkAgainstRef(r, "long-lived node, no fault", name, n.bc, n.ref, n.floor, key, map[string]any{}, n.seen...) {
-					return
-				}
-				// ---- (a) crash after every committed write ----
-				for k := 0; k <= total; k++ {
-					img := n.fdb.Image(k)
-					if img == nil {
-						continue
+					if r.OutOfTime() {
+						r.Incomplete("sequences " + label)
+						return
 					}
-					// which op was in flight
-					j := 0
-					for j+1 < len(bounds) && bounds[j+1].commit <= k {
-						j++
+					seq := seqs[si]
+					name := seqName(seq)
+					pruning := strings.Contains(name, "prune")
+					mkNode := func() *node { return mkNodeP(pruning) }
+					openOn := func(d *faultdb.DB) *blockchain.Blockchain {
+						t := &node{db: d, fdb: d, newState: newState, pruning: pruning}
+						t.open()
+						return t.bc
 					}
-					fresh := openOn(faultdb.Wrap(img.Copy()))
-					mu.Lock()
-					crashRuns++
-					mu.Unlock()
-					r.Add("evaluations", 1)
-					detail := map[string]any{"crash_after_commit": k, "of": total, "in_flight_op": opNameAt(seq, j, bounds[j].commit == k)}
-					candidates := [][]*chain.Entry{bounds[j].ref}
-					if bounds[j].commit != k && j+1 < len(bounds) {
-						candidates = append(candidates, bounds[j+1].ref) // mid-operation: fully absent or fully present
+					key := func(kind string) string { return kind + " " + label }
+					// ---- reference run (no fault): record commit boundaries and reference chains per op ----
+					n := mkNode()
+					n.fdb.SnapshotAll()
+					type boundary struct {
+						commit int
+						ref    []*chain.Entry
+						floor  uint64
 					}
-					h, herr := fresh.Height()
-					var ref []*chain.Entry
-					for _, c := range candidates {
-						if (len(c) == 0 && herr != nil) || (len(c) > 0 && herr == nil && h == c[len(c)-1].Block.Number) {
-							ref = c
+					bounds := []boundary{{0, append([]*chain.Entry{}, n.ref...), 0}}
+					for _, o := range seq {
+						err := o.run(n)
+						if errors.Is(err, errNA) {
+							return // sequence not applicable from this base
 						}
-					}
-					if ref == nil && herr == nil {
-						r.Violate(key("crash-image-height-is-neither-before-nor-after"), map[string]any{"sequence": name, "detail": detail, "height": h})
-						continue
-					}
-					// floor: mid-operation the stricter (post-op) floor applies - everything at or above the prune
-					// target must be intact in every intermediate image
-					floor := bounds[j].floor
-					midOp := bounds[j].commit != k && j+1 < len(bounds)
-					if midOp {
-						floor = bounds[j+1].floor
-					}
-					if !checkAgainstRef(r, "fresh node on crash image", name, fresh, ref, floor, key, detail, n.seen...) {
-						continue
-					}
-					if midOp && seq[j].name == "prune" {
-						// an interrupted prune must be resumable and end where the uninterrupted one ended
-						rd := faultdb.Wrap(img.Copy())
-						if _, _, err := pruner.PruneUpto(context.Background(), rd, floor, 1); err != nil {
-							r.Violate(key("resumed-prune-fails-after-crash"), map[string]any{"sequence": name, "detail": detail, "err": err.Error()})
-							continue
+						if err != nil {
+							r.Violate(key("op-fails-without-fault "+o.name), map[string]any{"sequence": name, "err": err.Error()})
+							return
 						}
-						if chain.ImageHash(rd.Inner()) != chain.ImageHash(n.fdb.Image(bounds[j+1].commit)) {
-							r.Violate(key("resumed-prune-ends-in-a-different-image"), map[string]any{"sequence": name, "detail": detail,
-								"diff": bucketSummary(chain.DiffImages(chain.Image(n.fdb.Image(bounds[j+1].commit)), chain.Image(rd.Inner())))})
-							continue
-						}
-					}
-					// the next block can be stored normally
-					tmp := &node{db: faultdb.Wrap(img.Copy()), newState: newState, ref: append([]*chain.Entry{}, ref...), pruning: pruning, floor: floor}
-					tmp.open()
-					if err := storeOp("empty").run(tmp); err != nil {
-						r.Violate(key("next-block-cannot-be-stored-after-crash"), map[string]any{"sequence": name, "detail": detail, "err": err.Error()})
-						continue
-					}
-					checkAgainstRef(r, "fresh node on crash image + next block", name, tmp.bc, tmp.ref, floor, key, detail)
-				}
-				// ---- (b) the k-th committed write fails ----
-				type faultPoint struct {
-					kind string
-					k    int
-				}
-				var faults []faultPoint
-				for k := 1; k <= total; k++ {
-					faults = append(faults, faultPoint{"commit", k})
-				}
-				if len(seq) <= stagedDepth {
-					// also fail every STAGED write (a Put/Delete/DeleteRange on a batch, before its commit)
-					for k := 1; k <= n.fdb.Staged(); k++ {
-						faults = append(faults, faultPoint{"staged-write", k})
-					}
-				}
-				for _, fk := range faults {
-					k := fk.k
-					m := mkNode()
-					if fk.kind == "commit" {
-						m.fdb.FailAt(k, faultdb.ErrInjected)
-					} else {
-						m.fdb.FailStagedAt(k, faultdb.ErrInjected)
+						bounds = append(bounds, boundary{n.fdb.Commits(), append([]*chain.Entry{}, n.ref...), n.floor})
 					}
 					mu.Lock()
-					faultRuns++
+					applicableSeqs++
+					distinct[label+"/"+name] = true
 					mu.Unlock()
-					r.Add("evaluations", 1)
-					failedAt := -1
-					var before string
-					ok := true
-					for i, o := range seq {
-						pre := chain.ImageHash(m.fdb.Inner())
-						preRef := append([]*chain.Entry{}, m.ref...)
-						preFloor := m.floor
-						err := o.run(m)
-						if err == nil {
+					total := n.fdb.Commits()
+					finalImage := chain.ImageHash(n.fdb.Inner())
+					// the long-lived node itself must describe the reference chain at the end
+					if !checkAgainstRef(r, "long-lived node, no fault", name, n.bc, n.ref, n.floor, key, map[string]any{}, n.seen...) {
+						return
+					}
+					// ---- (a) crash after every committed write ----
+					for k := 0; k <= total; k++ {
+						img := n.fdb.Image(k)
+						if img == nil {
 							continue
 						}
-						if !errors.Is(err, faultdb.ErrInjected) && !strings.Contains(err.Error(), "injected") {
-							r.Violate(key("unexpected-error-under-fault "+o.name), map[string]any{"sequence": name, "fault": fk.kind, "k": k, "err": err.Error()})
-							ok = false
-							break
+						// which op was in flight
+						j := 0
+						for j+1 < len(bounds) && bounds[j+1].commit <= k {
+							j++
 						}
-						failedAt, before = i, pre
-						detail := map[string]any{"fault": fk.kind, "k": k, "failed_op": o.name, "op_index": i}
-						checkFloor := preFloor
-						if o.name == "prune" {
-							// a prune is a multi-batch operation: earlier batches stay durable; everything at or above
-							// its target must be intact, and it must be resumable
-							checkFloor = preRef[len(preRef)-1].Block.Number
-						} else if chain.ImageHash(m.fdb.Inner()) != before { // nothing of the failed operation is durable
-							r.Violate(key("failed-"+opClass(o.name)+"-left-partial-writes"), map[string]any{"sequence": name, "detail": detail,
-								"diff": chain.DiffImages(chain.Image(m.fdb.Inner()), chain.Image(m.fdb.Inner()))})
-							ok = false
-							break
+						fresh := openOn(faultdb.Wrap(img.Copy()))
+						mu.Lock()
+						crashRuns++
+						mu.Unlock()
+						r.Add("evaluations", 1)
+						detail := map[string]any{"crash_after_commit": k, "of": total, "in_flight_op": opNameAt(seq, j, bounds[j].commit == k)}
+						candidates := [][]*chain.Entry{bounds[j].ref}
+						if bounds[j].commit != k && j+1 < len(bounds) {
+							candidates = append(candidates, bounds[j+1].ref) // mid-operation: fully absent or fully present
 						}
-						// memory == disk: WITHOUT restart the node still describes the pre-op chain
-						if !checkAgainstRef(r, "long-lived node after failed "+opClass(o.name), name, m.bc, preRef, checkFloor, func(kind string) string {
-							return key("memory-disagrees-with-disk-after-failed-" + opClass(o.name) + " " + kind)
-						}, detail) {
-							ok = false
-							break
+						h, herr := fresh.Height()
+						var ref []*chain.Entry
+						for _, c := range candidates {
+							if (len(c) == 0 && herr != nil) || (len(c) > 0 && herr == nil && h == c[len(c)-1].Block.Number) {
+								ref = c
+							}
 						}
-						// retry succeeds
-						m.ref = preRef
-						if err := o.run(m); err != nil {
-							r.Violate(key("retry-after-failed-"+opClass(o.name)+"-fails"), map[string]any{"sequence": name, "detail": detail, "err": err.Error()})
-							ok = false
-						}
-						break
-					}
-					if !ok {
-						continue
-					}
-					if failedAt < 0 {
-						// The injected failure was not reported by any operation (it hit a write whose error is legitimately
-						// irrelevant, or it was swallowed). Either way the node must describe its reference chain.
-						r.Outcome("injected-" + fk.kind + "-failure-not-reported")
-						checkAgainstRef(r, "long-lived node after an unreported injected failure", name, m.bc, m.ref, m.floor, func(kind string) string {
-							return key("unreported-" + fk.kind + "-failure-leaves-inconsistent-node " + kind)
-						}, map[string]any{"fault": fk.kind, "k": k}, m.seen...)
-						continue
-					}
-					for _, o := range seq[failedAt+1:] {
-						if err := o.run(m); err != nil {
-							r.Violate(key("op-fails-after-recovered-fault "+o.name), map[string]any{"sequence": name, "fault": fk.kind, "k": k, "err": err.Error()})
-							ok = false
-							break
-						}
-					}
-					if !ok {
-						continue
-					}
-					if chain.ImageHash(m.fdb.Inner()) != finalImage {
-						// tolerated only if observationally identical to the no-fault twin
-						if !checkAgainstRef(r, "long-lived node after recovered fault", name, m.bc, m.ref, m.floor, key, map[string]any{"fault": fk.kind, "k": k}, m.seen...) {
+						if ref == nil && herr == nil {
+							r.Violate(key("crash-image-height-is-neither-before-nor-after"), map[string]any{"sequence": name, "detail": detail, "height": h})
 							continue
 						}
-						r.Outcome("final-image-differs-but-observations-agree")
-					} else {
-						r.Outcome("final-image-equals-no-fault-twin")
+						// floor: mid-operation the stricter (post-op) floor applies - everything at or above the prune
+						// target must be intact in every intermediate image
+						floor := bounds[j].floor
+						midOp := bounds[j].commit != k && j+1 < len(bounds)
+						if midOp {
+							floor = bounds[j+1].floor
+						}
+						if !checkAgainstRef(r, "fresh node on crash image", name, fresh, ref, floor, key, detail, n.seen...) {
+							continue
+						}
+						if midOp && seq[j].name == "prune" {
+							// an interrupted prune must be resumable and end where the uninterrupted one ended
+							rd := faultdb.Wrap(img.Copy())
+							if _, _, err := pruner.PruneUpto(context.Background(), rd, floor, 1); err != nil {
+								r.Violate(key("resumed-prune-fails-after-crash"), map[string]any{"sequence": name, "detail": detail, "err": err.Error()})
+								continue
+							}
+							if chain.ImageHash(rd.Inner()) != chain.ImageHash(n.fdb.Image(bounds[j+1].commit)) {
+								r.Violate(key("resumed-prune-ends-in-a-different-image"), map[string]any{"sequence": name, "detail": detail,
+									"diff": bucketSummary(chain.DiffImages(chain.Image(n.fdb.Image(bounds[j+1].commit)), chain.Image(rd.Inner())))})
+								continue
+							}
+						}
+						// the next block can be stored normally
+						tmp := &node{db: faultdb.Wrap(img.Copy()), newState: newState, ref: append([]*chain.Entry{}, ref...), pruning: pruning, floor: floor}
+						tmp.open()
+						if err := storeOp("empty").run(tmp); err != nil {
+							r.Violate(key("next-block-cannot-be-stored-after-crash"), map[string]any{"sequence": name, "detail": detail, "err": err.Error()})
+							continue
+						}
+						checkAgainstRef(r, "fresh node on crash image + next block", name, tmp.bc, tmp.ref, floor, key, detail)
 					}
-				}
-			})
+					// ---- (b) the k-th committed write fails ----
+					type faultPoint struct {
+						kind string
+						k    int
+					}
+					var faults []faultPoint
+					for k := 1; k <= total; k++ {
+						faults = append(faults, faultPoint{"commit", k})
+					}
+					if len(seq) <= stagedDepth {
+						// also fail every STAGED write (a Put/Delete/DeleteRange on a batch, before its commit)
+						for k := 1; k <= n.fdb.Staged(); k++ {
+							faults = append(faults, faultPoint{"staged-write", k})
+						}
+					}
+					for _, fk := range faults {
+						k := fk.k
+						m := mkNode()
+						if fk.kind == "commit" {
+							m.fdb.FailAt(k, faultdb.ErrInjected)
+						} else {
+							m.fdb.FailStagedAt(k, faultdb.ErrInjected)
+						}
+						mu.Lock()
+						faultRuns++
+						mu.Unlock()
+						r.Add("evaluations", 1)
+						failedAt := -1
+						var before string
+						ok := true
+						for i, o := range seq {
+							pre := chain.ImageHash(m.fdb.Inner())
+							preRef := append([]*chain.Entry{}, m.ref...)
+							preFloor := m.floor
+							err := o.run(m)
+							if err == nil {
+								continue
+							}
+							if !errors.Is(err, faultdb.ErrInjected) && !strings.Contains(err.Error(), "injected") {
+								r.Violate(key("unexpected-error-under-fault "+o.name), map[string]any{"sequence": name, "fault": fk.kind, "k": k, "err": err.Error()})
+								ok = false
+								break
+							}
+							failedAt, before = i, pre
+							detail := map[string]any{"fault": fk.kind, "k": k, "failed_op": o.name, "op_index": i}
+							checkFloor := preFloor
+							if o.name == "prune" {
+								// a prune is a multi-batch operation: earlier batches stay durable; everything at or above
+								// its target must be intact, and it must be resumable
+								checkFloor = preRef[len(preRef)-1].Block.Number
+							} else if chain.ImageHash(m.fdb.Inner()) != before { // nothing of the failed operation is durable
+								r.Violate(key("failed-"+opClass(o.name)+"-left-partial-writes"), map[string]any{"sequence": name, "detail": detail,
+									"diff": chain.DiffImages(chain.Image(m.fdb.Inner()), chain.Image(m.fdb.Inner()))})
+								ok = false
+								break
+							}
+							// memory == disk: WITHOUT restart the node still describes the pre-op chain
+							if !checkAgainstRef(r, "long-lived node after failed "+opClass(o.name), name, m.bc, preRef, checkFloor, func(kind string) string {
+								return key("memory-disagrees-with-disk-after-failed-" + opClass(o.name) + " " + kind)
+							}, detail) {
+								ok = false
+								break
+							}
+							// retry succeeds
+							m.ref = preRef
+							if err := o.run(m); err != nil {
+								r.Violate(key("retry-after-failed-"+opClass(o.name)+"-fails"), map[string]any{"sequence": name, "detail": detail, "err": err.Error()})
+								ok = false
+							}
+							break
+						}
+						if !ok {
+							continue
+						}
+						if failedAt < 0 {
+							// The injected failure was not reported by any operation (it hit a write whose error is legitimately
+							// irrelevant, or it was swallowed). Either way the node must describe its reference chain.
+							r.Outcome("injected-" + fk.kind + "-failure-not-reported")
+							checkAgainstRef(r, "long-lived node after an unreported injected failure", name, m.bc, m.ref, m.floor, func(kind string) string {
+								return key("unreported-" + fk.kind + "-failure-leaves-inconsistent-node " + kind)
+							}, map[string]any{"fault": fk.kind, "k": k}, m.seen...)
+							continue
+						}
+						for _, o := range seq[failedAt+1:] {
+							if err := o.run(m); err != nil {
+								r.Violate(key("op-fails-after-recovered-fault "+o.name), map[string]any{"sequence": name, "fault": fk.kind, "k": k, "err": err.Error()})
+								ok = false
+								break
+							}
+						}
+						if !ok {
+							continue
+						}
+						if chain.ImageHash(m.fdb.Inner()) != finalImage {
+							// tolerated only if observationally identical to the no-fault twin
+							if !checkAgainstRef(r, "long-lived node after recovered fault", name, m.bc, m.ref, m.floor, key, map[string]any{"fault": fk.kind, "k": k}, m.seen...) {
+								continue
+							}
+							r.Outcome("final-image-differs-but-observations-agree")
+						} else {
+							r.Outcome("final-image-equals-no-fault-twin")
+						}
+					}
+				})
+			}
 		}
 	}
 	pebbleDurability(r, seqs, ev.Pick(r, 2, 3))
@@ -656,7 +684,7 @@ func TestCheck(t *testing.T) {
 	r.Set("rule", fmt.Sprintf("all operation sequences <=%d over {store x%d, revert, setL1Head, persistFilterSnapshot, restart-graceful, restart-ungraceful, query} plus all sequences <=%d over {store x2, revert, persistFilterSnapshot, restart-ungraceful, query}, "+
 		"from base images {empty, 3-block chain}, both state backends; for every applicable sequence: crash after EVERY committed write k (fresh node on the frozen image) and error injected into EVERY committed write k (and, for the short sequences, into every staged batch write); "+
 		"oracle = reference chain (before or after the in-flight op): all block/tx/receipt/state-update/lookup accessors, tries recomputed == head commitment, head storage, event queries == naive scan, next block stores; "+
-		"after an injected failure: no partial writes, the SAME node object still answers like the pre-op chain, the retry succeeds and the run ends like the no-fault twin", depth, len(storeNames), deepDepth))
+		"after an injected failure: no partial writes, the SAME node object still answers like the pre-op chain, the retry succeeds and the run ends like the no-fault twin; part F (follow-ups other than the retry after a failed operation on the node that stays up): see followup_rule", depth, len(storeNames), deepDepth))
 	r.Sample(map[string]any{"sequence": "store:A.s0=1 ; persistFilterSnapshot ; revert ; store:empty ; restart-ungraceful", "then": "crash after each commit / fail each commit"})
 	r.Sample(map[string]any{"sequences": len(seqs), "applicable_x_bases_x_backends": applicableSeqs})
 	r.Assume = append(r.Assume, "a committed write (batch) is atomic at the KV seam (backend contract, see C15); crashes are modelled between commits", "crash points inside an operation are enumerated on the memory backend under the faultdb proxy; on pebblev2 (crashable MemFS) a power loss is taken after every operation with only synced data surviving; the crash atomicity of one synced Pebble batch is trusted")
